@@ -143,6 +143,32 @@ def run(ctx, n_random=None, per_field=None):
     same_characters(ctx, ctx.budget(4, 40))
 
 
+def copies_decode_differently(bits, ref):
+    """The assembled sentence object a reader delivers, copied (copy.copy, copy.deepcopy, a pickle round trip -- how sentences
+    travel to worker processes) and then decoded: every copy must decode to the same fields as the plain decode (the object
+    protocol must not lose the fill bits of the last fragment).  -> (component, text) | None"""
+    import copy
+    import pickle
+    from pyais.stream import IterMessages
+    try:
+        sent = next(iter(IterMessages(cc.ais.bits_to_sentences(bits, maxlen=17))))
+    except Exception as e:   # noqa: BLE001
+        return ('reader', f'the reader raised {type(e).__name__}')
+    want = [repr(cc.ais.canon_value(v)) for _, v in ref[2]]
+    for name, fn in (('the delivered sentence', lambda x: x), ('copy.copy', copy.copy), ('copy.deepcopy', copy.deepcopy),
+                     ('pickle round trip', lambda x: pickle.loads(pickle.dumps(x)))):
+        try:
+            m = fn(sent).decode()
+            d = m.asdict()
+            got = [repr(cc.ais.canon_value(d[f.name])) for f in type(m).fields()]
+        except Exception as e:   # noqa: BLE001
+            return (name, f'{name} of the sentence, then decode(): raised {type(e).__name__}')
+        if type(m).__name__ != ref[1] or got != want:
+            k = next((f.name for f, x, y in zip(type(m).fields(), got, want) if x != y), 'class')
+            return (k, f'{name} of the sentence decodes {k} differently from the plain decode of the same payload')
+    return None
+
+
 def shorter_forms(ctx, n_each):
     """Payloads of the documented SHORTER forms (the trailing variable-length binary / text field cut on a byte / character
     boundary, so that fill bits are needed), carried by several short sentences handed over in reverse order: every field must
@@ -168,6 +194,12 @@ def shorter_forms(ctx, n_each):
             bits = cc.make_payload(rng, variant, length)
             rep.case(('shorter-form', bits), kind='shorter-form:' + ('fill' if length % 6 else 'nofill'))
             a = cc.impl_decode(bits)
+            if a[0] == 'Ok':
+                bad = copies_decode_differently(bits, a)
+                if bad:
+                    rep.violation({'entry': 'sentence copy + decode', 'class': a[1], 'component': bad[0], 'kind': 'copy-decodes-differently'},
+                                  f'{a[1]} payload of {length} bits, assembled from several sentences by a reader: {bad[1]}',
+                                  {'bits': bits, 'copies': True})
             try:
                 msg = pyais.decode(*reversed(cc.ais.bits_to_sentences(bits, maxlen=17)))
                 d = msg.asdict()
@@ -236,6 +268,10 @@ def replay(ctx, data):
     import vlib
     m = ctx.model or vlib.FastModel()
     bits = data['bits']
+    if data.get('copies'):
+        a = cc.impl_decode(bits)
+        bad = copies_decode_differently(bits, a) if a[0] == 'Ok' else None
+        return bad[1] if bad else None
     if data.get('sequence'):
         off, name = data['offset'], data['field']
         for step, b in enumerate(data['sequence'][:data['step'] + 1]):      # the same decode() calls, in the recorded order
